@@ -123,6 +123,8 @@ func Classify(msg string) string {
 		return "tooNew"
 	case has("too old"):
 		return "tooOld"
+	case has("context should be set either in all the request blocks or in none"):
+		return "ctxmix"
 	case has("nonce provided when not allowed"):
 		return "nonceNotAllowed"
 	case has("missing 'context' for key derivation"):
@@ -658,59 +660,221 @@ func (g *gen) inWindow(a artifact) bool {
 	return g.exists && a.ver >= g.info.MinDec && a.ver <= g.info.Latest && a.ver >= 1
 }
 
-func (g *gen) opDec() {
-	h := g.pickHandle("enc")
-	if h == 0 {
-		g.opEnc()
-		return
-	}
+// decCase is one generated decrypt request on a known artifact, with what the property expects of it.
+type decCase struct {
+	h                                           int
+	a                                           artifact
+	ms, vm, bm                                  string
+	ctx, aad                                    []byte
+	wantV, wantB, ctxSame, aadSame, sameVer, bc bool
+}
+
+func (g *gen) genDec(h int) decCase {
 	a, s := g.arts[h-1], g.strs[h-1]
-	ctx, aad := unhex(a.ctx), unhex(a.aad)
-	ctxSame, aadSame := true, true
+	d := decCase{h: h, a: a, ctx: unhex(a.ctx), aad: unhex(a.aad), ctxSame: true, aadSame: true}
 	r := g.rng.Intn(100)
-	wantV, wantB := false, false
 	switch {
 	case r < 40:
 	case r < 50:
-		ctx = g.otherOf(g.ctxs, ctx, 25)
-		ctxSame = hx(ctx) == a.ctx || !g.derived
+		d.ctx = g.otherOf(g.ctxs, d.ctx, 25)
+		d.ctxSame = hx(d.ctx) == a.ctx || !g.derived
 	case r < 60:
-		aad = g.otherOf(g.aads, aad, 35)
-		aadSame = hx(aad) == a.aad
+		d.aad = g.otherOf(g.aads, d.aad, 35)
+		d.aadSame = hx(d.aad) == a.aad
 	case r < 82:
-		wantV = true
+		d.wantV = true
 	case r < 96:
-		wantB = true
+		d.wantB = true
 	default:
-		wantV, wantB = true, true
+		d.wantV, d.wantB = true, true
 	}
 	if !g.derived && a.ctx == "-" && g.rng.Chance(10) {
-		ctx = g.ctxs[0] // ignored by non-derived keys
+		d.ctx = g.ctxs[0] // ignored by non-derived keys
 	}
-	ms, vm, bm, sameVer, bodyChanged := g.mutate(s, a, wantV, wantB)
-	plain, cls := g.t.Decrypt(ms, ctx, aad)
+	d.ms, d.vm, d.bm, d.sameVer, d.bc = g.mutate(s, a, d.wantV, d.wantB)
+	return d
+}
+
+// judgeDec is the direct predicate on one decrypt result (single request or batch item).
+func (g *gen) judgeDec(d decCase, plain []byte, cls string) string {
+	a := d.a
 	res := errRes(cls)
 	if cls == "" {
 		res = "ok:" + hx(plain)
 		switch {
 		case hx(plain) != a.msg:
 			res = viol(res, "decrypt returned a plaintext other than the one encrypted under that ciphertext", "dec-wrong-plaintext")
-		case bodyChanged:
+		case d.bc:
 			res = viol(res, "decrypt accepted a modified ciphertext body", "dec-accepts-tampered-body")
-		case !sameVer:
+		case !d.sameVer:
 			res = viol(res, "decrypt accepted a ciphertext whose version prefix denotes another version", "dec-accepts-other-version")
-		case !ctxSame:
+		case !d.ctxSame:
 			res = viol(res, "decrypt accepted another derivation context", "dec-accepts-other-context")
-		case !aadSame:
+		case !d.aadSame:
 			res = viol(res, "decrypt accepted other associated data", "dec-accepts-other-aad")
 		case !g.inWindow(a):
 			res = viol(res, "decrypt accepted a version outside [min_decryption_version, latest]", "dec-outside-window")
 		}
-	} else if !wantV && !wantB && ctxSame && aadSame && a.epoch == g.epoch && g.inWindow(a) && !(g.derived && len(ctx) == 0) {
-		sig := "dec-refused-in-window"
-		res = viol(res, "an unmodified ciphertext of a version inside [min_decryption_version, latest] is refused ("+cls+")", sig)
+	} else if !d.wantV && !d.wantB && d.ctxSame && d.aadSame && a.epoch == g.epoch && g.inWindow(a) && !(g.derived && len(d.ctx) == 0) {
+		res = viol(res, "an unmodified ciphertext of a version inside [min_decryption_version, latest] is refused ("+cls+")", "dec-refused-in-window")
 	}
-	g.emit(res, "dec", strconv.Itoa(h), vm, bm, hx(ctx), hx(aad))
+	return res
+}
+
+func (g *gen) opDec() {
+	h := g.pickHandle("enc")
+	if h == 0 {
+		g.opEnc()
+		return
+	}
+	d := g.genDec(h)
+	plain, cls := g.t.Decrypt(d.ms, d.ctx, d.aad)
+	g.emit(g.judgeDec(d, plain, cls), "dec", strconv.Itoa(h), d.vm, d.bm, hx(d.ctx), hx(d.aad))
+}
+
+// ---------------------------------------------------------------- batch requests (endpoint targets only)
+
+// BatchItem is one element of batch_input; BatchResult its element of batch_results.
+type BatchItem struct {
+	Ver             int
+	Ctx, Aad, Plain []byte
+	Ct              string
+}
+
+type BatchResult struct {
+	Text string // ciphertext, or base64-decoded plaintext as string(bytes)
+	Cls  string // canonical error class, "" = success
+}
+
+// Batcher is implemented by targets that accept batch_input (kind = "encrypt", "decrypt", "rewrap"); whole != "" is a
+// refusal of the whole request.
+type Batcher interface {
+	Batch(kind string, items []BatchItem) (results []BatchResult, whole string)
+}
+
+// joinBatch assembles the result field of a batch line: per-item results joined by "|", the first per-item predicate
+// failure moved to the end of the line (where the runner looks for it).
+func joinBatch(rs []string) string {
+	viol := ""
+	for i, r := range rs {
+		if k := strings.Index(r, "!VIOL:"); k >= 0 {
+			if viol == "" {
+				what := r[k+len("!VIOL:"):]
+				sig := ""
+				if j := strings.LastIndex(what, "#"); j >= 0 {
+					what, sig = what[:j], what[j:]
+				}
+				viol = "!VIOL:batch item " + strconv.Itoa(i) + ": " + what + sig
+			}
+			rs[i] = r[:k]
+		}
+	}
+	return strings.Join(rs, "|") + viol
+}
+
+func (g *gen) opBatch(bt Batcher) {
+	n := 1 + g.rng.Intn(5)
+	switch g.rng.Intn(10) {
+	case 0, 1, 2, 3: // encrypt
+		items := make([]BatchItem, n)
+		fields := []string{"benc", strconv.Itoa(n)}
+		for i := range items {
+			ver := 0
+			if g.rng.Chance(40) {
+				ver = g.pickVer()
+			}
+			items[i] = BatchItem{Ver: ver, Ctx: g.pickCtx(), Aad: g.pickAad(), Plain: g.msgs[g.rng.Intn(len(g.msgs))]}
+			fields = append(fields, strconv.Itoa(ver), hx(items[i].Ctx), hx(items[i].Aad), hx(items[i].Plain))
+		}
+		rs, whole := bt.Batch("encrypt", items)
+		if whole != "" || len(rs) != n {
+			g.emit(errRes(whole+lenNote(len(rs), n, whole)), fields...)
+			return
+		}
+		out := make([]string, n)
+		for i, r := range rs {
+			out[i] = errRes(r.Cls)
+			if r.Cls == "" {
+				g.recordEnc(r.Text, items[i].Ver, items[i].Ctx, items[i].Aad, items[i].Plain, &out[i])
+			}
+		}
+		g.emit(joinBatch(out), fields...)
+	case 4, 5, 6, 7, 8: // decrypt
+		if g.pickHandle("enc") == 0 {
+			g.opEnc()
+			return
+		}
+		items := make([]BatchItem, n)
+		ds := make([]decCase, n)
+		fields := []string{"bdec", strconv.Itoa(n)}
+		for i := range items {
+			ds[i] = g.genDec(g.pickHandle("enc"))
+			if i > 0 && g.rng.Chance(50) {
+				// the neighbour pattern: same ciphertext family, one item with and one without associated data
+				ds[i].aad = nil
+				ds[i].aadSame = ds[i].a.aad == "-"
+			}
+			items[i] = BatchItem{Ct: ds[i].ms, Ctx: ds[i].ctx, Aad: ds[i].aad}
+			fields = append(fields, strconv.Itoa(ds[i].h), ds[i].vm, ds[i].bm, hx(ds[i].ctx), hx(ds[i].aad))
+		}
+		rs, whole := bt.Batch("decrypt", items)
+		if whole != "" || len(rs) != n {
+			g.emit(errRes(whole+lenNote(len(rs), n, whole)), fields...)
+			return
+		}
+		out := make([]string, n)
+		for i, r := range rs {
+			out[i] = g.judgeDec(ds[i], []byte(r.Text), r.Cls)
+		}
+		g.emit(joinBatch(out), fields...)
+	default: // rewrap
+		if g.pickHandle("enc") == 0 {
+			g.opEnc()
+			return
+		}
+		items := make([]BatchItem, n)
+		hs := make([]int, n)
+		fields := []string{"brewrap", strconv.Itoa(n)}
+		for i := range items {
+			h := g.pickHandle("enc")
+			a := g.arts[h-1]
+			ver := 0
+			if g.rng.Chance(35) {
+				ver = g.pickVer()
+			}
+			ctx := unhex(a.ctx)
+			if g.rng.Chance(8) {
+				ctx = g.otherOf(g.ctxs, ctx, 30)
+			}
+			hs[i] = h
+			items[i] = BatchItem{Ct: g.strs[h-1], Ver: ver, Ctx: ctx}
+			fields = append(fields, strconv.Itoa(h), strconv.Itoa(ver), hx(ctx))
+		}
+		rs, whole := bt.Batch("rewrap", items)
+		if whole != "" || len(rs) != n {
+			g.emit(errRes(whole+lenNote(len(rs), n, whole)), fields...)
+			return
+		}
+		out := make([]string, n)
+		for i, r := range rs {
+			out[i] = errRes(r.Cls)
+			if r.Cls == "" {
+				a := g.arts[hs[i]-1]
+				g.recordEnc(r.Text, items[i].Ver, items[i].Ctx, nil, unhex(a.msg), &out[i])
+				if a.aad != "-" && !strings.Contains(out[i], "!VIOL") {
+					out[i] = viol(out[i], "rewrap accepted a ciphertext bound to associated data without it", "dec-accepts-other-aad")
+				}
+			}
+		}
+		g.emit(joinBatch(out), fields...)
+	}
+}
+
+func lenNote(got, want int, whole string) string {
+	if whole == "" && got != want {
+		return "other(batch_results has " + strconv.Itoa(got) + " items for " + strconv.Itoa(want) + ")"
+	}
+	return ""
 }
 
 func unhex(s string) []byte {
@@ -1153,6 +1317,12 @@ func Run(out *vh.Out, rng *vh.Rand, mk func(useCache bool) Target, cases, opsPer
 				g.opDelete()
 			case x < 40 && faults:
 				g.opFailPut()
+			case x < 44 && enc && !faults:
+				if bt, ok := g.t.(Batcher); ok {
+					g.opBatch(bt)
+				} else {
+					g.opDec()
+				}
 			case x < 58:
 				if enc {
 					g.opEnc()
